@@ -577,6 +577,10 @@ func (env *SpecEnv) call(x *SCall) Val {
 		case "istype":
 			v := env.eval(x.Args[0])
 			ty, _ := u.resolveType(env.home, x.Args[1].(*SType).T)
+			if isInterface(ty) {
+				// istype(v, I): v is a non-nil value whose dynamic type implements I
+				return Val{T: sAnd(sNot(sEq(v.T, "0")), app(u.sc.implementsFn(ty), app("dyntype", v.T))), Ty: boolT, So: "Bool"}
+			}
 			return Val{T: sEq(app("dyntype", v.T), strconv.Itoa(u.sc.tid(ty))), Ty: boolT, So: "Bool"}
 		case "astype":
 			v := env.eval(x.Args[0])
